@@ -53,15 +53,22 @@ def make_meta(version, with_type):
     return m
 
 
+SHARED_META = {}
+
+
 class _Base(mosaik_api_v3.Simulator):
     def __init__(self):
         super().__init__({})
         self.t = None
 
-    def _init(self, sid, time_resolution, version, with_type):
+    def _init(self, sid, time_resolution, version, with_type, shared=False):
         self.sid = sid
         LOG.append((sid, "init", {"time_resolution": time_resolution}))
-        self.meta = make_meta(version, with_type)
+        if shared:
+            # the common `return META` style: every instance of the class returns the same module-level dict object
+            self.meta = SHARED_META.setdefault((version, with_type), make_meta(version, with_type))
+        else:
+            self.meta = make_meta(version, with_type)
         return self.meta
 
     def create(self, num, model, **kw):
@@ -93,48 +100,48 @@ for _name in EXTRA:
 
 
 class StubV3(_Base):
-    def init(self, sid, time_resolution="MISSING", version=None, with_type=True):
-        return self._init(sid, time_resolution, version, with_type)
+    def init(self, sid, time_resolution="MISSING", version=None, with_type=True, shared=False):
+        return self._init(sid, time_resolution, version, with_type, shared)
 
     def step(self, time, inputs, max_advance="MISSING"):
         return self._step((time, inputs) if max_advance == "MISSING" else (time, inputs, max_advance))
 
 
 class StubV2(_Base):
-    def init(self, sid, version=None, with_type=True):
-        return self._init(sid, "MISSING", version, with_type)
+    def init(self, sid, version=None, with_type=True, shared=False):
+        return self._init(sid, "MISSING", version, with_type, shared)
 
     def step(self, time, inputs, *more):
         return self._step((time, inputs) + tuple(more))
 
 
 class StubInitOnly(_Base):          # init takes time_resolution (optional), step has no max_advance
-    def init(self, sid, time_resolution="MISSING", version=None, with_type=True):
-        return self._init(sid, time_resolution, version, with_type)
+    def init(self, sid, time_resolution="MISSING", version=None, with_type=True, shared=False):
+        return self._init(sid, time_resolution, version, with_type, shared)
 
     def step(self, time, inputs, *more):
         return self._step((time, inputs) + tuple(more))
 
 
 class StubStepOnly(_Base):          # step takes max_advance (optional), init has no time_resolution
-    def init(self, sid, version=None, with_type=True):
-        return self._init(sid, "MISSING", version, with_type)
+    def init(self, sid, version=None, with_type=True, shared=False):
+        return self._init(sid, "MISSING", version, with_type, shared)
 
     def step(self, time, inputs, max_advance="MISSING"):
         return self._step((time, inputs) if max_advance == "MISSING" else (time, inputs, max_advance))
 
 
 class StubV2ChildOfV3(StubV3):      # a subclass of a v3-style simulator that overrides init/step in the old style
-    def init(self, sid, version=None, with_type=True):
-        return self._init(sid, "MISSING", version, with_type)
+    def init(self, sid, version=None, with_type=True, shared=False):
+        return self._init(sid, "MISSING", version, with_type, shared)
 
     def step(self, time, inputs, *more):
         return self._step((time, inputs) + tuple(more))
 
 
 class StubV3ChildOfV2(StubV2):      # an upgraded subclass of an old-style simulator
-    def init(self, sid, time_resolution="MISSING", version=None, with_type=True):
-        return self._init(sid, time_resolution, version, with_type)
+    def init(self, sid, time_resolution="MISSING", version=None, with_type=True, shared=False):
+        return self._init(sid, time_resolution, version, with_type, shared)
 
     def step(self, time, inputs, max_advance="MISSING"):
         return self._step((time, inputs) if max_advance == "MISSING" else (time, inputs, max_advance))
@@ -229,7 +236,17 @@ def run_row(row, stub_version=None):
             with contextlib.redirect_stdout(io.StringIO()):
                 if row["kind"] in PARENT:
                     w.start("Parent", sim_id="Q", version=PARENT[row["kind"]][1], with_type=True)
-                fac = w.start("Stub", sim_id="S", version=version, with_type=row["with_type"])
+                skw = {}
+                if row.get("twin"):
+                    # a first instance of the very same simulator (same class, same version) in the same world; both
+                    # return the same meta dict object from init()
+                    SHARED_META.clear()
+                    skw["shared"] = True
+                    try:
+                        w.start("Stub", sim_id="S0", version=version, with_type=row["with_type"], **skw)
+                    except ScenarioError:
+                        pass
+                fac = w.start("Stub", sim_id="S", version=version, with_type=row["with_type"], **skw)
         except ScenarioError as e:
             out["outcome"], out["msg"] = "rejected", str(e)
             return out
@@ -370,6 +387,11 @@ def rows():
             for kind in KINDS:
                 for with_type in (True, False):
                     yield {"version": version, "explicit": explicit, "kind": kind, "with_type": with_type}
+                    if kind != "remote_raw" and explicit != "different":
+                        # the second of two instances of the same in-process simulator, whose init() both return
+                        # one module-level meta dict
+                        yield {"version": version, "explicit": explicit, "kind": kind, "with_type": with_type,
+                               "twin": True}
 
 
 def shards(tier, seed):
@@ -393,7 +415,8 @@ def shard(prop, tier, seed, shard, nshards):
         parts = [draw(st.integers(1, 5))] + [draw(st.integers(0, 12)) for _ in range(draw(st.integers(0, 2)))]
         return {"kind": "row", "row": {"version": ".".join(map(str, parts)),
                                        "explicit": draw(st.sampled_from(["absent", "equal", "different"])),
-                                       "kind": draw(st.sampled_from(KINDS)), "with_type": draw(st.booleans())}}
+                                       "kind": draw(st.sampled_from(KINDS)), "with_type": draw(st.booleans()),
+                                       "twin": draw(st.booleans())}}
 
     core.drive(hrow(), check_case, acc, 40 if tier == "quick" else 2000, seed * 1000 + shard)
     return acc
